@@ -34,6 +34,8 @@ def sh(cmd, cwd=None, env=None, timeout=3600):
 
 
 res = {'property': P, 'k': K}
+if os.path.exists(os.path.join(out, 'meta.json')):
+    res.update(json.load(open(os.path.join(out, 'meta.json'))))
 if os.path.exists(meta_in):
     res.update(json.load(open(meta_in)))
 assert sh('git -C /repo status --porcelain --untracked-files=no')[1].strip() == '', '/repo not clean'
